@@ -265,7 +265,12 @@ def normal(ans):
     if k == "dict":
         return ["dict", len(ans)]
     if isinstance(ans, (set, frozenset)):
-        return ["set", sorted(type(x).__name__ + ":" + repr(getattr(x, "value", x)) for x in ans)]
+        # symbol sets: names of synthesised variables (numbered by converters) are not demanded to be history
+        # independent - compare the number of variables and the terminals by value
+        from pyformlang.cfg import Variable
+        nvar = sum(1 for x in ans if isinstance(x, Variable))
+        rest = sorted(type(x).__name__ + ":" + repr(getattr(x, "value", x)) for x in ans if not isinstance(x, Variable))
+        return ["set", nvar, rest]
     if isinstance(ans, (list, tuple)):
         return ["list", [repr(x) for x in ans]]
     if isinstance(ans, (bool, int, str)) or ans is None:
